@@ -63,4 +63,7 @@ def finding_key(case, obs, model, oracle):
     # D16: a counting Map pipelined into a Head is pulled only as far as the Head reads
     if "depend on pipelining: a counting Map feeds a Head" in oracle:
         return "counters-depend-on-pipelining-under-head"
+    # D23: a WriterFunc pipelined into a Head observes only what the Head pulls
+    if "is pipelined into a Head and observed only what the Head pulled" in oracle:
+        return "writer-under-head-observes-prefix"
     return None
